@@ -10,7 +10,8 @@ def run(tier, seed):
         "Wa and Wz parsers (parser.ParseFile, all errors, comments) on token skeletons: every keyword and operator of the token table at top level and at statement position (quick), plus at expression position and between two operands (thorough), in both surface syntaxes, followed by one arbitrary byte: no panic, and termination within 5 million interpreter steps (a path that exceeds the budget is replayed natively under a 20 s limit and reported only if it is still running)",
         "WAT parser (parser.ParseModule) with two arbitrary bytes at each of 29 operand / declaration positions of a small module: no panic, termination within the step budget",
         "native-assembly parser (parser.ParseFile) for LoongArch64, RISC-V 64 and x86-64/Unix (quick) plus RISC-V 32 and x86-64/Windows (thorough) at 14 directive, operand, label and instruction positions in the GAS and the Chinese syntax: the first byte enumerated from 15 token-class representatives, the second arbitrary among the non-letters; float literals are cut at big.Float.SetString (stub: not ok); no panic, termination within the step budget",
-        "outside: type checker, loader (pointer-rich, recursion), and inputs that are not of these shapes - stated as not covered, not replaced by another technique",
+        "type checker (parse, then types.Config.Check) on 13 x 8 declaration skeletons: a struct type that mentions itself through each kind of element type (directly, pointer, slice, array with an arbitrary length byte, map key/value, function result, nested struct, interface) combined with comparison, assignment, len, copy, field read, use as map key, boxing and array comparison: no panic, termination (recursion deeper than 2000 frames counts as non-termination)",
+        "outside: the rest of the type checker's input space, the loader (pointer-rich, recursion), and inputs that are not of these shapes - stated as not covered, not replaced by another technique",
     ]
     lim = {"caselimit": "VfH_scan=%d" % ncase, "maxdecisions": 6000, "samples": 2}
     c.run_unit("internal/scanner", "scanner", opts=lim)
@@ -28,4 +29,7 @@ def run(tier, seed):
     c.run_unit("internal/native/parser", "parser", harnesses=["VfH_nasm_pos"] if tier == "quick" else ["VfH_nasm_pos", "VfH_nasm_pos_more"],
                opts={"maxdecisions": 6000, "samples": 1, "hangsteps": 5000000, "transparent": "strconv", "stubstr": "fmt.Sprintf",
                      "stubzero": "(*math/big.Float).SetString", "tasktimeout": "400s"})
+    # type checker on self-referential declaration skeletons
+    c.run_unit("internal/types", "types", harnesses=["VfH_tc_decl"],
+               opts={"maxdecisions": 6000, "samples": 1, "hangsteps": 20000000, "transparent": "strconv", "stubstr": "fmt.Sprintf", "tasktimeout": "400s"})
     return c.finish()
